@@ -457,10 +457,57 @@ def check_scoring_paths(fails):
                               "corpus": None})
 
 
+def check_limited_nested(fails):
+    """C05 deterministic family: a limited search over DisjunctionMax of compound clauses whose block quality EQUALS the
+    current k-th best score must terminate (DisjunctionMaxMatcher.skip_to_quality used to spin there) and return the prefix
+    of the exhaustive ranking."""
+    import signal
+    from whoosh import fields, query, scoring
+    from whoosh.filedb.filestore import RamStorage
+    ix = RamStorage().create_index(fields.Schema(k=fields.ID(stored=True), body=fields.TEXT))
+    w = ix.writer()
+    w.add_document(k=u"0", body=u"xx")
+    w.add_document(k=u"1", body=u"xx xx yy yy zz zz ww ww")
+    for i in range(2, 10):
+        w.add_document(k=u"%d" % i, body=u"xx yy zz ww")
+    w.commit()
+    T = lambda t: query.Term("body", t)
+    shapes = [query.DisjunctionMax([query.Or([T(u"xx"), T(u"yy")]), query.Or([T(u"zz"), T(u"ww")])]),
+              query.DisjunctionMax([query.And([T(u"xx"), T(u"yy")]), query.Or([T(u"zz"), T(u"ww")])]),
+              query.DisjunctionMax([query.AndMaybe(T(u"xx"), T(u"yy")), query.AndMaybe(T(u"zz"), T(u"ww"))]),
+              query.DisjunctionMax([query.DisjunctionMax([T(u"xx"), T(u"yy")]), query.Or([T(u"zz"), T(u"ww")])])]
+
+    class Hang(Exception):
+        pass
+
+    def boom(*a):
+        raise Hang()
+    old = signal.signal(signal.SIGALRM, boom)
+    try:
+        with ix.searcher(weighting=scoring.Frequency()) as s:
+            for q in shapes:
+                full = [(h["k"], h.score) for h in s.search(q, limit=None)]
+                for k in (1, 2, 3):
+                    signal.alarm(20)
+                    try:
+                        got = [(h["k"], h.score) for h in s.search(q, limit=k)]
+                    except Hang:
+                        fails.append({"case": "C05-dismax-progress", "detail": "search(%r, limit=%d) did not return within 20 s" % (q, k), "corpus": None})
+                        return
+                    finally:
+                        signal.alarm(0)
+                    if [sc for _, sc in got] != [sc for _, sc in full[:k]]:
+                        fails.append({"case": "C05-dismax-progress", "detail": "search(%r, limit=%d) = %r, exhaustive prefix %r" % (q, k, got, full[:k]), "corpus": None})
+                        return
+    finally:
+        signal.signal(signal.SIGALRM, old)
+
+
 def main():
     if sys.argv[1] == "--deterministic":
         fails = []
         check_scoring_paths(fails)
+        check_limited_nested(fails)
         want = sys.argv[2] if len(sys.argv) > 2 else None
         hit = [f for f in fails if want is None or f["case"] == want]
         for f in hit:
@@ -485,6 +532,7 @@ def main():
     fails = [f for fs, _ in outs for f in fs]
     try:
         check_scoring_paths(fails)
+        check_limited_nested(fails)
     except Exception as e:
         fails.append({"case": "exception/scoring-paths", "detail": "%s: %s | %s" % (type(e).__name__, e, traceback.format_exc()[-400:]), "corpus": None})
     counts = {"corpora": sum(c["corpora"] for _, c in outs), "queries": sum(c["queries"] for _, c in outs)}
